@@ -8,6 +8,8 @@
 #include "sg.hpp"
 #include "sp.hpp"
 
+#include "Particles.hpp"
+
 #include <dirent.h>
 
 using namespace nifly;
@@ -424,7 +426,30 @@ static void c07_check_saved(const canon::Saved& sv, bool has_unknown, const std:
 }
 
 // every edit of the menu, applied to a fresh load of F, then saved raw and default
-static const char* C07_EDITS[] = {"none", "delete-block", "add-node", "add-shape", "delete-vertex", "rename", "add-extra-data", "set-texture", "convert", "clone-shape"};
+static const char* C07_EDITS[] = {"none", "delete-block", "add-node", "add-shape", "delete-vertex", "rename", "add-extra-data", "set-texture", "convert", "clone-shape", "key-interpolation", "replace-block-same-type"};
+
+// every animation key group of a block: switch the interpolation type and add a key through the API
+template<class G>
+static void retime(G& g, bool& any) {
+	if (g.GetNumKeys() == 0 && g.GetInterpolationType() == NO_INTERP) g.SetInterpolationType(LINEAR_KEY);
+	NiKeyType t = g.GetInterpolationType() == QUADRATIC_KEY ? TBC_KEY : QUADRATIC_KEY;
+	g.SetInterpolationType(t);
+	auto k = g.GetNumKeys() > 0 ? g.GetKey(0) : decltype(g.GetKey(0))();
+	k.time += 1.0f;
+	g.AddKey(k);
+	any = true;
+}
+static bool retime_block(NiObject* o) {
+	bool any = false;
+	if (auto d = dynamic_cast<NiKeyframeData*>(o)) { retime(d->xRotations, any); retime(d->yRotations, any); retime(d->zRotations, any); retime(d->translations, any); retime(d->scales, any); }
+	if (auto d = dynamic_cast<NiPosData*>(o)) retime(d->data, any);
+	if (auto d = dynamic_cast<NiBoolData*>(o)) retime(d->data, any);
+	if (auto d = dynamic_cast<NiFloatData*>(o)) retime(d->data, any);
+	if (auto d = dynamic_cast<NiUVData*>(o)) { retime(d->uTrans, any); retime(d->vTrans, any); retime(d->uScale, any); retime(d->vScale, any); }
+	if (auto d = dynamic_cast<NiPSysEmitterCtlrData*>(o)) retime(d->floatKeys, any);
+	if (auto d = dynamic_cast<NiColorData*>(o)) retime(d->data, any);
+	return any;
+}
 
 static void c07_file_checks(const std::string& F, const std::string& keybase, const std::string& what, const J& cj, Stats& st, bool with_edits) {
 	for (const char* edit : C07_EDITS) {
@@ -484,6 +509,19 @@ static void c07_file_checks(const std::string& F, const std::string& keybase, co
 				else if (e == "clone-shape") {
 					if (!shapes.empty()) x.CloneShape(shapes[0], "VerifClone");
 					else applied = false;
+				}
+				else if (e == "key-interpolation") {
+					bool any = false;
+					for (uint32_t i = 0; i < hdr.GetNumBlocks(); i++) if (auto o = hdr.GetBlock<NiObject>(i)) any = retime_block(o) || any;
+					if (!any) applied = false;
+				}
+				else if (e == "replace-block-same-type") {
+					// replace block #var by a copy of itself (ReplaceBlock with a fresh block of the same type)
+					variants = std::min<size_t>(hdr.GetNumBlocks(), 40);
+					uint32_t id = (uint32_t) var;
+					auto o = hdr.GetBlock<NiObject>(id);
+					if (!o || dynamic_cast<NiGeometryData*>(o) || dynamic_cast<NiShape*>(o)) applied = false; // shapes / geometry data are linked through cached pointers
+					else hdr.ReplaceBlock(id, o->Clone());
 				}
 				if (!applied) break;
 				vf::set_inflight(J(cj).set("edit", e).set("variant", (long long) var).set("raw", raw == 1).dump());
@@ -587,6 +625,55 @@ static void run_rfile(const std::string& rel, Stats& st) {
 	}
 }
 
+// ---------- C11 / C14 rider: copying a block (Clone) and copying a model yields the same bytes ----------
+// Every registered block type has a hand-written or generated copy constructor; C11 (model copy) and C14 (shape
+// cloning copies child blocks) both rest on "a copied block writes what the original writes".  The sample files
+// contain 86 of the 304 types; this rider covers all of them, for every decision path within the bound.
+static void oracle_clone_block(const std::string& type, const VerCfg& vc, const Script& s, Stats& st, NiObject* obj, NiHeader& hdr) {
+	auto put = [&](NiObject* o) {
+		std::ostringstream os(std::ios::binary);
+		NiOStream out(&os, &hdr);
+		o->Put(out);
+		return os.str();
+	};
+	std::unique_ptr<NiObject> c1 = obj->Clone();	  // clone BEFORE the original is written (writing may normalise the original)
+	std::string a = put(c1.get());
+	std::string b = put(obj);
+	std::unique_ptr<NiObject> c2 = obj->Clone();
+	std::unique_ptr<NiObject> c3 = c2->Clone();		  // clone of a clone
+	std::string c = put(c3.get());
+	st.add("block_clones_checked");
+	J cj = case_json(type, vc, s).set("runner", "e1_main.cpp");
+	if (a != b)
+		st.violation(type + ":" + game_of(vc) + ":clone-bytes-differ", vf::strf("%s (%s): a clone of the block writes different bytes than the block itself (%s)", type.c_str(), vc.name, first_diff(b, a).c_str()), cj);
+	else if (c != b)
+		st.violation(type + ":" + game_of(vc) + ":clone-of-clone-bytes-differ", vf::strf("%s (%s): a clone of a clone writes different bytes (%s)", type.c_str(), vc.name, first_diff(b, c).c_str()), cj);
+	g_unit_outcomes.insert(vf::fnv(b));
+}
+
+static void oracle_copy_file(const std::string& type, const VerCfg& vc, const Script& s, Stats& st) {
+	s1::Built b = s1::build_s1(type, vc, s, g_wide);
+	if (!b.ok) { st.add("file_not_built"); return; }
+	NifFile src, twin;
+	if (s1::load(src, b.file) != 0 || s1::load(twin, b.file) != 0) { st.add("file_not_accepted"); return; }
+	st.add("files_checked");
+	J cj = case_json(type, vc, s).set("runner", "e1_main.cpp");
+	std::string ref = s1::save(twin, true);
+	{
+		NifFile copy(src);
+		std::string got = s1::save(copy, true);
+		if (got != ref) st.violation(type + ":" + game_of(vc) + ":model-copy-bytes-differ", vf::strf("%s (%s): a copy-constructed model saves differently from its source (%s)", type.c_str(), vc.name, first_diff(ref, got).c_str()), cj);
+		NifFile assigned;
+		assigned = src;
+		std::string got2 = s1::save(assigned, true);
+		if (got2 != ref) st.violation(type + ":" + game_of(vc) + ":model-copy-bytes-differ", vf::strf("%s (%s): an assigned model saves differently from its source (%s)", type.c_str(), vc.name, first_diff(ref, got2).c_str()), cj);
+	}
+	// the source is untouched by copying and by the copies' destruction
+	std::string after = s1::save(src, true);
+	if (after != ref) st.violation(type + ":" + game_of(vc) + ":source-changed-by-copy", vf::strf("%s (%s): the source saves differently after it was copied (%s)", type.c_str(), vc.name, first_diff(ref, after).c_str()), cj);
+	g_unit_file_outcomes.insert(vf::fnv(ref));
+}
+
 // ---------- one execution ----------
 
 static std::vector<Point> run_one(const std::string& type, const VerCfg& vc, const Script& s, Stats& st, bool replay = false) {
@@ -632,6 +719,11 @@ static std::vector<Point> run_one(const std::string& type, const VerCfg& vc, con
 	else if (A.prop == "C07") {
 		obj.reset();
 		if ((int) s.size() <= g_file_dev) oracle_c07_file(type, vc, s, st);
+	}
+	else if (A.prop == "C11" || A.prop == "C14") {
+		oracle_clone_block(type, vc, s, st, obj.get(), hdr);
+		obj.reset();
+		if (A.prop == "C11" && (g_file_level == 2 ? (int) s.size() <= g_file_dev : (g_file_level == 1 && s.empty()))) oracle_copy_file(type, vc, s, st);
 	}
 	return tape.points;
 }
